@@ -23,7 +23,7 @@ from typing import Any, Callable, Protocol
 import pyarrow as pa
 
 from dst.chan import ByteChannel, ChunkPolicy, FakeListener, FakeSocket, SimRawReader, SimRawWriter
-from dst.sched import BLOCKED, DONE, RUNNABLE, Scheduler, SimEvent, SimLock, SimThreading
+from dst.sched import BLOCKED, Scheduler, SimEvent, SimLock, SimThreading
 
 from vgi_rpc.log import Level
 from vgi_rpc.rpc import AnnotatedBatch, CallContext, ExchangeState, OutputCollector, ProducerState, RpcServer, Stream
